@@ -20,6 +20,7 @@ import (
 	bsclient "github.com/ipfs/boxo/bitswap/client"
 	bswl "github.com/ipfs/boxo/bitswap/client/wantlist"
 	bsmsg "github.com/ipfs/boxo/bitswap/message"
+	pb "github.com/ipfs/boxo/bitswap/message/pb"
 	bsnet "github.com/ipfs/boxo/bitswap/network"
 	cid "github.com/ipfs/go-cid"
 	peer "github.com/libp2p/go-libp2p/core/peer"
@@ -270,11 +271,26 @@ func runSchedule(t *testing.T, sh bool, ncid, maxSize int, acts []action) (strin
 			w.runSender(a)
 		}
 	}
+	// Send until idle. A sendMessage with no producer step in between must make progress
+	// (send something or change the lists); if it does not, or if maxSends passes are not
+	// enough, the schedule ends NOT idle and the specification judges that observation
+	// ("a current want is never left unsent").
+	const maxSends = 64
+	stuck := ""
 	for i := 0; !idle(w.mq.VerifDump()); i++ {
-		if i > 200 {
-			t.Fatalf("queue does not become idle: %v", w.log)
+		if i >= maxSends {
+			stuck = fmt.Sprintf("not idle after %d sends without producer steps", maxSends)
+			break
 		}
+		before, nb := w.dumpCoq(w.mq.VerifDump()), len(snd.sent)
 		w.runSender(action{kind: "send"})
+		if len(snd.sent) == nb && w.dumpCoq(w.mq.VerifDump()) == before {
+			stuck = "a send with nothing else running sent nothing and changed nothing, yet the queue is not idle"
+			break
+		}
+	}
+	if stuck != "" {
+		w.log = append(w.log, "STUCK: "+stuck)
 	}
 	// the peer: replay every sent message onto a real want-list
 	peerWl := bswl.New()
@@ -447,6 +463,10 @@ func TestC35(t *testing.T) {
 			[]action{P(W([]int{0, 1}, nil)), send, send, P(W(nil, []int{0, 1})), P(B(0)), send, {kind: "rebroadcast"}, P(C(0, 1)), send}},
 		{"no HAVE: want-have first (never sent), then want-block of the same cid, cancel", false, 2, 1 << 21,
 			[]action{P(W(nil, []int{0})), send, P(W([]int{0}, nil)), send, P(W(nil, []int{0})), send, P(C(0))}},
+		{"one entry per message: cancel alone in a message while a want-have waits, then upgrade it to want-block", true, 2, 1,
+			[]action{P(W([]int{0}, nil)), send, P(C(0)), P(W(nil, []int{1})), send, P(W([]int{1}, nil)), send}},
+		{"upgrade of a pending want-have inside the window, then again after the send", true, 2, 1 << 21,
+			[]action{P(W(nil, []int{0, 1})), {kind: "send", window: []prod{W([]int{0}, nil)}}, P(W([]int{1}, nil)), send}},
 		{"rebroadcast", true, 3, 1 << 21, []action{P(W([]int{0}, []int{1})), P(B(1, 2)), send, {kind: "rebroadcast"}, P(C(1))}},
 	}
 	emit := func(sh bool, n, max int, acts []action, name string) {
@@ -489,6 +509,63 @@ func TestC35(t *testing.T) {
 			n = 10
 		}
 		emit(e.Rng.Intn(3) != 0, n, limits[e.Rng.Intn(len(limits))], genActs(e, n), "")
+	}
+	// ---- wantlist.Wantlist on its own: op sequences with Entries() between mutations ----
+	wlCase := func(script []int, n int) {
+		cids := mkCids(n)
+		idx := map[cid.Cid]int{}
+		for i, c := range cids {
+			idx[c] = i
+		}
+		w := bswl.New()
+		var items, text []string
+		add := func(op, ob, tx string) { items = append(items, "("+op+", "+ob+")"); text = append(text, tx) }
+		for k := 0; k+3 < len(script); k += 4 {
+			c, p, ty := script[k+1]%n, int32(script[k+2]%6), pb.Message_Wantlist_WantType(script[k+3]%2)
+			if script[k+3]%23 == 0 {
+				ty = 2
+			}
+			switch script[k] % 12 {
+			case 0, 1, 2, 3:
+				r := w.Add(cids[c], p, ty)
+				add(fmt.Sprintf("WAdd %d %d %d", c, p, ty), "OBool "+vh.Bool(r), fmt.Sprintf("Add(%d,%d,%d)=%v", c, p, ty, r))
+			case 4:
+				w.Remove(cids[c])
+				add(fmt.Sprintf("WRemove %d", c), "OUnit", fmt.Sprintf("Remove(%d)", c))
+			case 5, 6:
+				r := w.RemoveType(cids[c], ty)
+				add(fmt.Sprintf("WRemType %d %d", c, ty), "OBool "+vh.Bool(r), fmt.Sprintf("RemoveType(%d,%d)=%v", c, ty, r))
+			case 7, 8, 9:
+				es := w.Entries()
+				add("WEntries", "OEntries "+vh.ListOf(es, func(e bswl.Entry) string {
+					return fmt.Sprintf("(%d, (%d, %d))", idx[e.Cid], e.Priority, e.WantType)
+				}), fmt.Sprintf("Entries()=%d", len(es)))
+			case 10:
+				g, ok := w.Get(cids[c])
+				add(fmt.Sprintf("WGet %d", c), "OGet "+vh.Opt(ok, fmt.Sprintf("(%d, %d)", g.Priority, g.WantType)), fmt.Sprintf("Get(%d)=%v", c, ok))
+				h := w.Has(cids[c])
+				add(fmt.Sprintf("WHas %d", c), "OBool "+vh.Bool(h), fmt.Sprintf("Has(%d)=%v", c, h))
+			default:
+				l := w.Len()
+				add("WLen", fmt.Sprintf("OLen %d", l), fmt.Sprintf("Len()=%d", l))
+			}
+		}
+		term := vh.App("CWl", vh.List(items))
+		rp := map[string]any{"kind": "wantlist", "ops": text}
+		cs.Add(term, rp)
+		st.Case(term, len(items) >= 6)
+		st.Count("wantlist-differential")
+		st.Sample(rp, 5)
+	}
+	// corpus: Entries, upgrade want-have -> want-block, Entries again (the cache must follow)
+	wlCase([]int{0, 0, 3, 1, 7, 0, 0, 0, 0, 0, 5, 0, 7, 0, 0, 0, 10, 0, 0, 0, 5, 0, 0, 1, 7, 0, 0, 0, 4, 0, 0, 0, 7, 0, 0, 0, 11, 0, 0, 0}, 2)
+	for i := 0; i < e.Pick(250, 3000); i++ {
+		k := 4 * (3 + e.Rng.Intn(14))
+		script := make([]int, k)
+		for j := range script {
+			script[j] = e.Rng.Intn(1000)
+		}
+		wlCase(script, 1+e.Rng.Intn(4))
 	}
 	cs.Close()
 	st.Write(e)
